@@ -299,8 +299,25 @@ func selftestConformance(args []string) error {
 			var e1, e2 error
 			var d1, d2 string
 			m := ""
-			op := rng.Intn(11)
+			op := rng.Intn(13)
 			switch op {
+			case 11:
+				// hard link
+				m = rng.Pick(names)
+				e1 = simrt.Link(path.Join("/r", m), sp)
+				e2 = os.Link(filepath.Join(real, m), rp)
+			case 12:
+				// identity of two names (stat follows symbolic links)
+				m = rng.Pick(names)
+				a1, ea1 := simrt.Stat(sp)
+				b1, eb1 := simrt.Stat(path.Join("/r", m))
+				a2, ea2 := os.Stat(rp)
+				b2, eb2 := os.Stat(filepath.Join(real, m))
+				if ea1 == nil && eb1 == nil && ea2 == nil && eb2 == nil {
+					d1, d2 = fmt.Sprint(simrt.SameFile(a1, b1)), fmt.Sprint(os.SameFile(a2, b2))
+				} else {
+					d1, d2 = fmt.Sprint(ea1 == nil, eb1 == nil), fmt.Sprint(ea2 == nil, eb2 == nil)
+				}
 			case 8:
 				// symbolic link with a relative or absolute target
 				m = rng.Pick(names)
